@@ -99,6 +99,10 @@ func seedPayloads() []*V {
 	add(tmapv([]PTag{{Ptr: "/k2", Class: "public"}, {Ptr: "/k1/k1", Class: "public"}, {Ptr: "/k1/k2", Class: "sensitive", Op: "hmac-sha256"}, {Ptr: "/k1/k9", Class: "secret"}},
 		"k1", imap("k1", str(1), "k2", str(2), "k3", str(3)), "k2", str(4), "k3", str(5)))
 	add(ptr(st(fld("F1", nil, tmapv([]PTag{{Ptr: "/k1/k1", Class: "public"}}, "k1", imap("k1", str(1), "k2", st(fld("F1", sens, str(2)))), "k2", str(3))))))
+	// pointers three levels deep
+	add(tmapv([]PTag{{Ptr: "/k1/k2/k1", Class: "public"}}, "k1", imap("k2", imap("k1", str(1), "k2", str(2)))))
+	add(tmapv([]PTag{{Ptr: "/k1/k2/k1", Class: "public"}, {Ptr: "/k1/k2/k2", Class: "sensitive", Op: "hmac-sha256"}, {Ptr: "/k3/k1", Class: "public"}, {Ptr: "/k1/k1/k1", Class: "secret"}},
+		"k1", imap("k1", str(1), "k2", imap("k1", str(2), "k2", str(3), "k3", str(4))), "k2", str(5), "k3", imap("k1", str(6), "k2", str(7))))
 	add(tmapv([]PTag{{Ptr: "k1", Class: "secret"}}, "k1", str(1)))
 	add(tmapv([]PTag{{Ptr: "/k1", Class: "bogus"}}, "k1", str(1)))
 	add(tmapv([]PTag{{Ptr: "/k1", Class: "bogus"}}, "k2", str(1)))
